@@ -86,7 +86,12 @@ class Stub(object):
         import asn1tools.compiler as module
 
         self.module = module
-        self.saved = (module.parse_files, module.compile_dict)
+        # The function _compile_files_cache parses with (whichever exists
+        # in the tree under test).
+        self.parse_name = ('_parse_files_contents'
+                           if hasattr(module, '_parse_files_contents')
+                           else 'parse_files')
+        self.saved = (getattr(module, self.parse_name), module.compile_dict)
         real_parse, real_compile = self.saved
         marker = object()
         stub = self
@@ -109,11 +114,12 @@ class Stub(object):
             return real_compile(specification, codec,
                                 any_defined_by_choices, numeric_enums)
 
-        module.parse_files = parse_files
+        setattr(module, self.parse_name, parse_files)
         module.compile_dict = compile_dict
 
     def __exit__(self, *exc):
-        self.module.parse_files, self.module.compile_dict = self.saved
+        setattr(self.module, self.parse_name, self.saved[0])
+        self.module.compile_dict = self.saved[1]
 
         return False
 
@@ -204,6 +210,15 @@ def rename_variant(files, index):
             for name, text in files]
 
 
+def merge_into(result, sub):
+    result.stats.update(sub.stats)
+    result.violations.extend(sub.violations[:2])
+    result.merge_distinct(sub.distinct.items())
+    result.ticks += sub.ticks
+    result.evaluations += sub.evaluations
+    result.log.extend(sub.log)
+
+
 class C17(Engine):
     property_id = 'C17'
     level = 'exploration'
@@ -289,6 +304,19 @@ class C17(Engine):
                               'stride': stride,
                               'seed': mix(seed, 'sweep', scenario)})
 
+        # The sources rewritten by another actor at (every / every 12th)
+        # Python tick of a running compile, into an empty and into a
+        # populated directory; then put back and compiled again.
+        edit_stride = 12 if tier == 'quick' else 1
+
+        for populated in (False, True):
+            for start in range(1, 2000, span * edit_stride):
+                items.append({'kind': 'editsweep', 'populated': populated,
+                              'start': start,
+                              'end': start + span * edit_stride,
+                              'stride': edit_stride,
+                              'seed': mix(seed, 'editsweep', populated)})
+
         for index in range(max(1, runs // 8)):
             items.append({'kind': 'bitflip',
                           'seed': mix(seed, 'C17-bitflip', index)})
@@ -304,7 +332,45 @@ class C17(Engine):
         if item['kind'] == 'bitflip':
             return self.execute(self.gen_bitflip_case(item['seed']))
 
+        if item['kind'] == 'editsweep':
+            return self.run_edit_sweep(item)
+
         return self.run_sweep(item)
+
+    def run_edit_sweep(self, item):
+        result = Result()
+        files, module_name = self.gen_family(mix(item['seed'], 'scenario'),
+                                             False)
+        variants = [files, samesize_variant(files, 1),
+                    rename_variant(files, 1)]
+        rng = random.Random(mix(item['seed'], 'editsweep-codecs'))
+        c1, c2 = rng.sample(CODECS, 2)
+        args = {'codec': c1, 'numeric_enums': False, 'adbc': None,
+                'encoding': 'utf-8', 'proc': 'inproc', 'stub': False}
+        memo = {}
+
+        for n in range(item['start'], item['end'], item['stride']):
+            target = 1 + (n // item['stride']) % 2
+            ops = [dict(args, op='compile-edit',
+                        fault={'kind': 'edit-at-tick', 'n': n,
+                               'variant': target}),
+                   {'op': 'edit', 'variant': 0}, dict(args, op='compile'),
+                   {'op': 'edit', 'variant': target},
+                   dict(args, op='compile')]
+
+            if item['populated']:
+                ops.insert(0, dict(args, codec=c2, op='compile'))
+
+            case = {'variants': variants, 'ops': ops, 'seed': item['seed'],
+                    'module': module_name, 'mtime': 'frozen'}
+            sub = self.execute(case, memo=memo)
+            merge_into(result, sub)
+            result.stats['sweep-edit-points'] += 1
+
+            if result.violations:
+                break
+
+        return result
 
     # -- families ---------------------------------------------------------------
 
@@ -396,12 +462,31 @@ class C17(Engine):
         if ops_rng.random() < 0.5:
             ops.append(dict(compile_args(), op='compile'))
 
+        current = 0    # variant on disk at this point of the history
+
         while len(ops) < length:
             roll = ops_rng.random()
 
-            if roll < 0.15:
-                ops.append({'op': 'edit',
-                            'variant': ops_rng.randrange(len(variants))})
+            if roll < 0.13:
+                current = ops_rng.randrange(len(variants))
+                ops.append({'op': 'edit', 'variant': current})
+            elif roll < 0.21:
+                # A concurrent editor: the sources are rewritten while a
+                # compile is running (at Python tick n of it), then - most
+                # of the time - put back and compiled again.
+                args = dict(compile_args(), proc='inproc', stub=False)
+                target = faults.choice([v for v in range(len(variants))
+                                        if v != current])
+                ops.append(dict(args, op='compile-edit',
+                                fault={'kind': 'edit-at-tick',
+                                       'n': faults.randrange(1, 1800),
+                                       'variant': target}))
+
+                if faults.random() < 0.7:
+                    ops.append({'op': 'edit', 'variant': current})
+                    ops.append(dict(args, op='compile'))
+                else:
+                    current = target
             elif roll < 0.5:
                 ops.append(dict(compile_args(), op='compile'))
             elif roll < 0.72:
@@ -582,12 +667,7 @@ class C17(Engine):
                         for violation in sub.violations:
                             violation['case'] = full
 
-                result.stats.update(sub.stats)
-                result.violations.extend(sub.violations[:2])
-                result.merge_distinct(sub.distinct.items())
-                result.ticks += sub.ticks
-                result.evaluations += sub.evaluations
-                result.log.extend(sub.log)
+                merge_into(result, sub)
                 result.stats['sweep-{}-points'.format(item['mode'])] += 1
         finally:
             shutil.rmtree(holder, ignore_errors=True)
@@ -700,6 +780,7 @@ class C17(Engine):
         tainted = False             # damage since the last wipe
         bitflips = []
         history = []
+        concurrent_edits = 0        # compiles during which a file changed
 
         def report(cls, signature, detail, index):
             small = dict(case, ops=copy.deepcopy(case['ops'][:index + 1]))
@@ -748,6 +829,7 @@ class C17(Engine):
                 io_errors_pending = False
                 kills = 0
                 bitflips = []
+                concurrent_edits = 0
                 history.append(['wipe'])
                 continue
 
@@ -763,6 +845,12 @@ class C17(Engine):
                         bitflips.append(done)
 
                 history.append(['damage', done])
+                continue
+
+            if name == 'compile-edit':
+                concurrent_edits += self.compile_during_edit(
+                    op, index, state, cache, seed, reference, write_variant,
+                    tainted, result, history)
                 continue
 
             # -- a compiler process -------------------------------------------
@@ -892,7 +980,9 @@ class C17(Engine):
             signature = {'after': ('damage' if tainted else
                                    'io-error' if (in_flight_io
                                                   or io_errors_pending) else
-                                   'kill' if kills else 'nothing')}
+                                   'kill' if kills else
+                                   'concurrent-edit' if concurrent_edits
+                                   else 'nothing')}
             detail = {'args': args, 'fault': fault,
                       'got': {k: v for k, v in payload.items()
                               if k != 'lines'},
@@ -954,6 +1044,95 @@ class C17(Engine):
         if len(result.samples) < 1 and len(history) > 2:
             result.samples.append({'history': history[:8]})
 
+    def compile_during_edit(self, op, index, state, cache, seed, reference,
+                            write_variant, tainted, result, history):
+        """A compile_files call (in this process, real code throughout)
+        during which another actor rewrites the source files: at Python
+        tick n of the call (lines of asn1tools/compiler.py and
+        diskcache/core.py) the files become variant v.  The call itself
+        may see the old files, the new ones or - with several files - a
+        mixture, as an uncached compile would; it is not judged.  What it
+        leaves in the cache directory is judged by the later compiles of
+        the history.  Returns 1 if the edit landed inside the call."""
+
+        fault = op['fault']
+        target = fault['variant']
+        old = state['variant']
+
+        if tainted:
+            # In-process compiles on a damaged directory can kill the
+            # driver (SIGBUS on a truncated -shm): only the edit happens.
+            write_variant(target)
+            history.append(['edit', target])
+
+            return 0
+
+        expected_old, _, probes_old = reference(op)
+        prefixes = (steps.ASN1TOOLS_DIR + 'compiler.py',
+                    fsfault._diskcache_core())
+        fired = []
+        paths = list(state['paths'])
+
+        def editor():
+            clock.hook_at = -1
+            fired.append(clock.ticks)
+            write_variant(target)
+
+        clock = steps.StepClock(None, editor, prefixes)
+        clock.hook_at = fault['n']
+        keep = []
+
+        with fsfault.seeded_urandom(mix(seed, 'urandom', index)):
+            clock.install()
+
+            try:
+                payload = behaviour(paths, op['codec'], op, cache, seed, keep,
+                                    probes=probes_old)
+            finally:
+                clock.uninstall()
+
+        gc.collect()
+        result.evaluations += 1
+        result.ticks += clock.ticks
+        result.stats['compiles-in-process'] += 1
+
+        if not fired:
+            # The call was over before tick n: the edit happens after it.
+            write_variant(target)
+            result.stats['concurrent-edit-after-the-call'] += 1
+        else:
+            result.stats['fault-concurrent-edit'] += 1
+
+        # Which files did the call see?  (A probe, not a verdict.)
+        saw = 'error' if payload['outcome'] != 'ok' else 'other'
+
+        if payload['outcome'] == 'ok' and expected_old['outcome'] == 'ok' \
+                and payload['digest'] == expected_old['digest']:
+            saw = 'old'
+        elif keep:
+            expected_new, _, probes_new = reference(op)
+
+            if expected_new['outcome'] == 'ok' and probes_new is not None:
+                try:
+                    lines = probes_new.apply(keep[0])
+                except Exception:
+                    lines = None
+
+                if lines == expected_new['lines']:
+                    saw = 'new'
+
+        if fired:
+            result.stats['concurrent-edit-call-saw-' + saw] += 1
+
+        result.key('concurrent-edit', op['codec'], old, target,
+                   fired[0] if fired else -1)
+        history.append(['compile-edit', [op['codec'], op['numeric_enums'],
+                                         bool(op['adbc']), op['encoding'],
+                                         old], fault,
+                        fired[0] if fired else None, saw])
+
+        return 1 if fired else 0
+
     @staticmethod
     def flip_location(bitflips, state, op):
         """'stored-payload-or-key' if every flip hit a .val file or landed in
@@ -1004,6 +1183,13 @@ class C17(Engine):
                 reduced = copy.deepcopy(ops)
                 reduced[index] = dict(op, op='compile')
                 reduced[index].pop('fault')
+
+                yield dict(case, ops=reduced)
+
+            if op['op'] == 'compile-edit':
+                reduced = copy.deepcopy(ops)
+                reduced[index] = {'op': 'edit',
+                                  'variant': op['fault']['variant']}
 
                 yield dict(case, ops=reduced)
 
